@@ -118,6 +118,9 @@ fn variants(r: &mut Rng, t: u64) -> Vec<(String, Option<Value>, Option<Value>, E
     for (i, inst) in [951_782_400u64, 951_868_799, 1_078_012_800, 1_709_251_199, 1_735_689_599, 1_704_067_199, 68_255_999, 946_684_799, 1_582_934_400].iter().enumerate() {
         v.push((format!("nbf-calendar-{i}"), Some(json!(fut(r))), Some(json!(inst)), Expect::Accept));
     }
+    // very long windows: valid since 1970 / 1990, until 2099 / 2100
+    v.push(("nbf-1970-exp-2099".into(), Some(json!(4_070_908_800u64)), Some(json!(86_400u64)), Expect::Accept));
+    v.push(("nbf-1990-exp-2100".into(), Some(json!(Y2100)), Some(json!(631_152_000u64)), Expect::Accept));
     v.push(("exp-plus-1h".into(), Some(json!(t + 3600)), None, Expect::Accept));
     v.push(("exp-2100".into(), Some(json!(Y2100)), None, Expect::Accept));
     for _ in 0..4 {
